@@ -159,9 +159,17 @@ type FetchCommand struct {
 	prev *FetchMessageData
 }
 
-func (cmd *FetchCommand) recvSeqNum(seqNum uint32) bool {
+// recvSeqNum checks whether the message with the sequence number seqNum has
+// been requested by the command and hasn't been received yet. last indicates
+// whether this is the last message of the mailbox, designated by "*".
+func (cmd *FetchCommand) recvSeqNum(seqNum uint32, last bool) bool {
 	set, ok := cmd.numSet.(imap.SeqSet)
-	if !ok || !set.Contains(seqNum) {
+	if !ok {
+		return false
+	}
+	// "*" and "n:*" always include the last message of the mailbox, even if
+	// its sequence number is smaller than n
+	if !set.Contains(seqNum) && !(last && set.Dynamic()) {
 		return false
 	}
 
@@ -173,9 +181,16 @@ func (cmd *FetchCommand) recvSeqNum(seqNum uint32) bool {
 	return true
 }
 
-func (cmd *FetchCommand) recvUID(uid imap.UID) bool {
+// recvUID is like recvSeqNum for UIDs.
+func (cmd *FetchCommand) recvUID(uid imap.UID, last bool) bool {
 	set, ok := cmd.numSet.(imap.UIDSet)
-	if !ok || !set.Contains(uid) {
+	if !ok {
+		return false
+	}
+	// "*" and "n:*" always include the last message of the mailbox, even if
+	// its UID is smaller than n. We don't know what the saved search result
+	// "$" contains.
+	if !set.Contains(uid) && !(last && set.Dynamic()) && !imap.IsSearchRes(set) {
 		return false
 	}
 
@@ -493,6 +508,12 @@ func (c *Client) handleFetch(seqNum uint32) error {
 			return
 		}
 
+		// "*" in a number set designates the last message of the mailbox
+		last := false
+		if mbox := c.Mailbox(); mbox != nil {
+			last = seqNum == mbox.NumMessages
+		}
+
 		cmd := c.findPendingCmdFunc(func(anyCmd command) bool {
 			cmd, ok := anyCmd.(*FetchCommand)
 			if !ok {
@@ -501,9 +522,9 @@ func (c *Client) handleFetch(seqNum uint32) error {
 
 			// Skip if we haven't requested or already handled this message
 			if _, ok := cmd.numSet.(imap.UIDSet); ok {
-				return uid != 0 && cmd.recvUID(uid)
+				return uid != 0 && cmd.recvUID(uid, last)
 			} else {
-				return seqNum != 0 && cmd.recvSeqNum(seqNum)
+				return seqNum != 0 && cmd.recvSeqNum(seqNum, last)
 			}
 		})
 		if cmd != nil {
